@@ -30,7 +30,14 @@ def call_bound(ex, recv, name, args, kwargs, e):
             return sql_execute(ex, recv, args, e)
         if name == "commit":
             ex.st.in_tx[recv.which] = BoolVal(False)
-            ex.commit_points.append((e.lineno, recv.which, ex.st.copy(), len(ex.p.pc))) if hasattr(ex, "commit_points") else None
+            if recv.which == "ch":
+                # C10: the state a kill -9 right after this commit leaves on disk (A8) must be Recoverable
+                names = getattr(ex.con, "commit_invariants", None)
+                if names:
+                    from contracts import invariants as INV
+                    for n in names:
+                        ex.oblige("commit@%d.recoverable.%s" % (e.lineno, n), INV.NAMED[n](ex.st), ["C10"],
+                                  e.lineno, "commit")
             return VConst(None)
         raise Unsupported("connection method %s at %d" % (name, e.lineno))
     if isinstance(recv, VCursor):
@@ -175,6 +182,11 @@ def call_func(ex, name, args, kwargs, e):
         if not args and not kwargs:
             return VMap({})
         raise Unsupported("dict(...) with arguments")
+    if name == "all":
+        v = args[0]
+        if isinstance(v, VList):
+            return VZ(FA([INT], lambda i: Implies(And(0 <= i, i < v.n), ex.truthy(v.at(i)))), "bool")
+        raise Unsupported("all of %r" % (v,))
     if name == "any":
         v = args[0]
         if isinstance(v, VList):
@@ -199,7 +211,13 @@ def call_func(ex, name, args, kwargs, e):
 sumfold = Function("sumfold", ArraySort(INT, INT), INT, INT)  # sum of f[0..n)
 
 
+dictsum = Function("dictsum", ArraySort(INT, INT), ArraySort(Str, INT), INT)   # sum of G[d[k]] over the keys of d (A3)
+
+
 def do_sum(ex, v, e):
+    if isinstance(v, VList) and hasattr(v, "dict_src"):
+        m, G = v.dict_src
+        return VZ(dictsum(G, m), "int")
     if isinstance(v, VList):
         arr = fresh("sumterm", ArraySort(INT, INT))
         ex.assume(FA([INT], lambda i: Implies(And(0 <= i, i < v.n), arr[i] == to_term(v.at(i), "int")),
